@@ -10,6 +10,7 @@ import (
 
 	"github.com/evolbioinfo/goalign/align"
 
+	"verif/lib/conc"
 	"verif/lib/gen"
 	"verif/lib/h"
 	"verif/lib/mon"
@@ -1585,6 +1586,7 @@ func main() {
 	mon.Floor("start:policy1", 50)
 	mon.Floor("start:policy2", 50)
 	mon.Floor("rejected-insertions", 20)
+	mon.Floor("concurrent:calls", 500)
 	mon.Main("C01", []mon.Sub{
 		{Name: "witness", Quick: 7, Thorough: 7, Run: runWitness},
 		{Name: "history", Quick: 40000, Thorough: 2000000, Run: func(c *mon.Case) { runHistory(c, nil) }},
@@ -1602,5 +1604,6 @@ func main() {
 			f := []opFn{opFilterLength, opConcat, opAppend, opAdd, opTrimSeqs, opTranslate}
 			runHistory(c, []opFn{f[c.R.Intn(len(f))], f[c.R.Intn(len(f))]})
 		}},
+		{Name: "concurrent", Quick: 64, Thorough: 1200, Race: true, Run: func(c *mon.Case) { conc.Run(c, "container") }},
 	})
 }
